@@ -66,7 +66,7 @@ PROPS = {
              GEN + "hostile arguments (invalid regexes, count operands negative / > i64::MAX / u64::MAX, list operands of ordering filters); "
              "every accepted (query, arguments) is executed to exhaustion under catch_unwind with a panic hook; a second pass runs in plain release "
              "(no debug assertions) in the thorough tier; worker aborts are attributed to the announced case. distinct_nontrivial = distinct skeletons executed",
-             quick={"cases": 10000, "timeout": 300},
+             quick={"cases": 10000, "timeout": 300, "plainrel": 4000},
              thorough={"cases": 150000, "timeout": 1800, "plainrel": 40000},
              floors={"evaluations": 5000, "distinct": 500, "counters": {"executed_ok": 4000}},
              crash_is_violation=True,
@@ -95,8 +95,8 @@ PROPS = {
              "@optional, one list level per enclosing fold, that level nullable iff the fold's origin is optional, count = Int! wrapped alike); every "
              "row's key set must equal the declared names and every value must fit its declared type (own fits()). distinct_nontrivial = distinct "
              "skeletons with rows and >= 1 nullable or folded output",
-             quick={"cases": 6000, "timeout": 300},
-             thorough={"cases": 100000, "timeout": 1800},
+             quick={"cases": 6000, "timeout": 300, "plainrel": 3000},
+             thorough={"cases": 100000, "timeout": 1800, "plainrel": 50000},
              floors={"evaluations": 5000, "distinct": 300, "counters": {"rows_checked": 20000}},
              technique="invariant monitor on every result row"),
     "C15": P("exploration",
@@ -253,7 +253,7 @@ PROPS["C14"] = P("exploration",
     "outputs, error Debug + RON, row sequence, adapter-boundary event sequence) and all workers run the SAME seed in separate processes "
     "(std's RandomState is seeded per process): the driver compares the per-case digests of all processes. distinct_nontrivial = distinct "
     "skeletons of executed cases with rows",
-    quick={"cases": 250, "timeout": 400, "workers": 6},
+    quick={"cases": 1500, "timeout": 400, "workers": 8},
     thorough={"cases": 6000, "timeout": 1800, "workers": 16},
     floors={"evaluations": 200, "distinct": 50},
     technique="event-log comparison across repetitions and across processes")
